@@ -23,9 +23,10 @@ import (
 var scratch string
 
 func main() {
-	if len(os.Args) == 4 && os.Args[1] == "--strace-child" {
+	if len(os.Args) >= 4 && os.Args[1] == "--strace-child" {
+		runtime.LockOSThread()
 		api.DisableConfigDir()
-		straceChild(os.Args[2], os.Args[3])
+		straceChild(os.Args[2:])
 		return
 	}
 	mode := flag.String("mode", "C06", "C06|C07")
@@ -62,6 +63,7 @@ func main() {
 	famCheat(r)
 	famCerts(r)
 	famReal(r)
+	straceC06(r)
 }
 
 var baseN int
